@@ -1,5 +1,7 @@
 //! Model-checking harness for irlserver/srtla_send (see /verif/DESIGN.md).
 pub mod conformance;
+pub mod e2e;
+pub mod realx;
 pub mod engine;
 pub mod evidence;
 pub mod props;
